@@ -107,4 +107,197 @@ Section Facts.
     - destruct (handle_of recv) as [h|]; [|destruct Hin].
       pose proof (base_handlers_ok h Hh) as Hf. rewrite Forall_forall in Hf. exact (Hf kh Hin args r Ha H).
   Qed.
+
+  (* ---------------------------------------------------------------- everything that can be built *)
+  (* values built in at most n nested calls of the modelled API: constructors, methods of expression values, entry
+     points and methods of the statement builders, the WITH builders - every expression argument being built
+     likewise (so: never a nil interface) *)
+  Definition arg_ok (P : exp -> Prop) (Pw : wrecv V -> Prop) (a : aarg V) : Prop :=
+    match a with
+    | AExp e => P e
+    | AExps l => Forall P l
+    | AExpss l => Forall (Forall P) l
+    | AWith ws => Pw (WB ws)
+    | _ => True
+    end.
+
+  Fixpoint builtn (n : nat) : (exp -> Prop) * (wrecv V -> Prop) :=
+    match n with
+    | O => (fun _ => False, fun _ => False)
+    | S n' =>
+        let P := fst (builtn n') in
+        let Pw := snd (builtn n') in
+        let ok := Forall (arg_ok P Pw) in
+        (fun e =>
+           P e
+           \/ (exists name args, ok args /\ lookup_h V name exp_ctors args = Some e)
+           \/ (exists key recv args, P recv /\ ok args /\ lookup_h V key (exp_meth_handlers recv) args = Some e)
+           \/ (exists name args, ok args /\ entry name args = Some e)
+           \/ (exists rt m recv args, P recv /\ ok args /\ query_ok V (mkey rt m) args /\ api rt m recv args = Some e)
+           \/ (exists m w args, Pw w /\ ok args /\ api_with m w args = Some (RExp e)),
+         fun w =>
+           Pw w
+           \/ (exists name args, entry_with name args = Some w)
+           \/ (exists m w0 args, Pw w0 /\ ok args /\ api_with m w0 args = Some (RWith w)))
+    end.
+
+  Definition built (e : exp) : Prop := exists n, fst (builtn n) e.
+
+  Lemma arg_ok_wfe (P : exp -> Prop) (Pw : wrecv V -> Prop) :
+    (forall e, P e -> hwf e = true) -> (forall w, Pw w -> wr_ok V w = true) ->
+    forall args, Forall (arg_ok P Pw) args -> forallb (aarg_wfe V) args = true.
+  Proof.
+    intros HP HPw. assert (W : forall e, P e -> wfe e = true).
+    { intros e He. specialize (HP e He). unfold hwf in HP. apply andb_true_iff in HP. tauto. }
+    assert (L : forall l, Forall P l -> forallb wfe l = true).
+    { induction 1 as [|x r Hx _ IH]; cbn; [reflexivity|]. now rewrite (W x Hx). }
+    induction 1 as [|a r Ha _ IH]; cbn [forallb]; [reflexivity|]. rewrite IH, andb_true_r.
+    destruct a; cbn [aarg_wfe arg_ok] in *; try reflexivity.
+    - now apply W.
+    - now apply L.
+    - induction Ha as [|x l Hx _ IHl]; cbn; [reflexivity|]. now rewrite (L x Hx).
+    - exact (HPw _ Ha).
+  Qed.
+
+  Lemma hwf_of_wfe_stmt e : wfe e = true -> handle_of e = None -> hwf e = true.
+  Proof. intros H1 H2. unfold hwf. now rewrite H1, H2. Qed.
+
+  Lemma sel_result_no_handle (hs : list (string * (list (aarg V) -> option exp))) : True. Proof. exact I. Qed.
+
+  (* the results of the statement API are statements: no handle *)
+  Definition R_ok (kh : string * (list (aarg V) -> option exp)) : Prop :=
+    forall args r, snd kh args = Some r -> handle_of r = None.
+
+  Ltac r_ok :=
+    repeat (apply Forall_cons; [|]); try apply Forall_nil;
+    intros a0 r0 Hh; cbn [fst snd] in Hh; args_cases Hh;
+    try (unfold opt_bind in Hh; match type of Hh with match ?u with _ => _ end = Some _ => destruct u; [|discriminate Hh] end);
+    try discriminate Hh; injection Hh as <-; reflexivity.
+
+  Lemma handlers_result_stmt recv kh args r :
+    In kh (handlers_of V recv) -> snd kh args = Some r -> handle_of r = None.
+  Proof.
+    assert (F : Forall R_ok (handlers_of V recv)).
+    { destruct recv; cbn [handlers_of]; try apply Forall_nil.
+      - unfold sel_handlers. r_ok.
+      - unfold ins_handlers. r_ok.
+      - unfold upd_handlers. r_ok.
+      - unfold del_handlers. r_ok. }
+    rewrite Forall_forall in F. intros Hin. exact (F kh Hin args r).
+  Qed.
+
+  Lemma api_result_stmt rt m (recv : exp) args r : api rt m recv args = Some r -> handle_of r = None.
+  Proof.
+    unfold api, lookup_h. destruct (find _ (handlers_of V recv)) as [kh|] eqn:E; [|discriminate].
+    apply find_some in E. destruct E as [Hin _]. now apply (handlers_result_stmt recv kh args r).
+  Qed.
+
+  Lemma entry_result_stmt name args (r : exp) : entry name args = Some r -> handle_of r = None.
+  Proof.
+    unfold entry. destruct (String.eqb name "Select"); [apply api_result_stmt|].
+    destruct (String.eqb name "SelectJson").
+    { destruct args as [|[t| | | | | | | | | |] [|? ?]]; try discriminate. now injection 1 as <-. }
+    destruct args as [|[t| | | | | | | | | |] [|? ?]]; try discriminate.
+    destruct (String.eqb name "InsertInto"); [now injection 1 as <-|].
+    destruct (String.eqb name "Update"); [now injection 1 as <-|].
+    destruct (String.eqb name "DeleteFrom"); [now injection 1 as <-|discriminate].
+  Qed.
+
+  Definition RW_ok (kh : string * (list (aarg V) -> option (ares V))) : Prop :=
+    forall args r, snd kh args = Some (RExp r) -> handle_of r = None.
+
+  Lemma api_with_result_stmt m w args (r : exp) : api_with m w args = Some (RExp r) -> handle_of r = None.
+  Proof.
+    unfold api_with. destruct (find _ (with_handlers V w)) as [kh|] eqn:E; [|discriminate].
+    apply find_some in E. destruct E as [Hin _].
+    assert (F : Forall RW_ok (with_handlers V w)).
+    { destruct w; cbn [with_handlers]; repeat (apply Forall_cons; [|]); try apply Forall_nil.
+      all: intros a0 r0 Hh; cbn [fst snd] in Hh; args_cases Hh.
+      all: try (unfold opt_bind in Hh; match type of Hh with match ?u with _ => _ end = Some _ => destruct u; [|discriminate Hh] end).
+      all: try discriminate Hh; injection Hh as <-; reflexivity. }
+    rewrite Forall_forall in F. exact (F kh Hin args r).
+  Qed.
+
+  Theorem builtn_ok n :
+    (forall e, fst (builtn n) e -> hwf e = true) /\ (forall w, snd (builtn n) w -> wr_ok V w = true).
+  Proof.
+    induction n as [|n [IHe IHw]]; [split; intros ? []|].
+    pose proof (arg_ok_wfe _ _ IHe IHw) as A.
+    assert (W : forall e, fst (builtn n) e -> wfe e = true).
+    { intros e He. specialize (IHe e He). unfold hwf in IHe. apply andb_true_iff in IHe. tauto. }
+    split.
+    - intros e H. cbn [builtn fst] in H.
+      destruct H as [H|[(name & args & Ha & H)|[(key & recv & args & Hr & Ha & H)|[(name & args & Ha & H)|
+                    [(rt & m & recv & args & Hr & Ha & Hq & H)|(m & w & args & Hw & Ha & H)]]]]].
+      + now apply IHe.
+      + exact (ctor_wfe name args e (A args Ha) H).
+      + exact (meth_wfe key recv args e (IHe recv Hr) (A args Ha) H).
+      + apply hwf_of_wfe_stmt; [exact (entry_wfe V name args e (A args Ha) H)|exact (entry_result_stmt name args e H)].
+      + apply hwf_of_wfe_stmt; [exact (api_wfe V rt m recv args e (W recv Hr) (A args Ha) Hq H)|exact (api_result_stmt rt m recv args e H)].
+      + apply hwf_of_wfe_stmt; [exact (api_with_ok V m w args (RExp e) (IHw w Hw) (A args Ha) H)|exact (api_with_result_stmt m w args e H)].
+    - intros w H. cbn [builtn snd] in H.
+      destruct H as [H|[(name & args & H)|(m & w0 & args & Hw & Ha & H)]].
+      + now apply IHw.
+      + exact (entry_with_ok V name args w H).
+      + exact (api_with_ok V m w0 args (RWith w) (IHw w0 Hw) (A args Ha) H).
+  Qed.
+
+  (* introduction rules, level by level *)
+  Notation Bn n := (fst (builtn n)).
+  Notation okn n := (Forall (arg_ok (fst (builtn n)) (snd (builtn n)))).
+  Lemma bn_keep n e : Bn n e -> Bn (S n) e.
+  Proof. intro H. cbn [builtn fst]. now left. Qed.
+  Lemma bn_mono n m e : (n <= m)%nat -> Bn n e -> Bn m e.
+  Proof. induction 1 as [|m _ IH]; [trivial|]. intro H. apply bn_keep. now apply IH. Qed.
+  Lemma bn_ctor n name args e : okn n args -> lookup_h V name exp_ctors args = Some e -> Bn (S n) e.
+  Proof. intros Ha H. cbn [builtn fst]. right. left. now exists name, args. Qed.
+  Lemma bn_meth n key recv args e :
+    Bn n recv -> okn n args -> lookup_h V key (exp_meth_handlers recv) args = Some e -> Bn (S n) e.
+  Proof. intros Hr Ha H. cbn [builtn fst]. right. right. left. now exists key, recv, args. Qed.
+  Lemma bn_entry n name args e : okn n args -> entry name args = Some e -> Bn (S n) e.
+  Proof. intros Ha H. cbn [builtn fst]. right. right. right. left. now exists name, args. Qed.
+  Lemma bn_step n rt m recv args e :
+    Bn n recv -> okn n args -> query_ok V (mkey rt m) args -> api rt m recv args = Some e -> Bn (S n) e.
+  Proof. intros Hr Ha Hq H. cbn [builtn fst]. right. right. right. right. left. now exists rt, m, recv, args. Qed.
+
+  Theorem built_wfe e : built e -> wfe e = true.
+  Proof. intros [n H]. destruct (builtn_ok n) as [He _]. specialize (He e H). unfold hwf in He. apply andb_true_iff in He. tauto. Qed.
 End Facts.
+
+(* ---------------------------------------------------------------- Args: one slot per value, equal values included *)
+Section ArgsSlots.
+  Variable V : Type.
+  Variables validI validT : string -> bool.
+  Notation exp := (exp V).
+
+  Definition arg_exps (vs : list V) : list exp := map (fun v => EBase (EArg v)) vs.
+
+  Lemma run_arg_list o (vs : list V) : forall s,
+    exists s', run validI validT o (WSeq (sep_by (WKw ",") (map (@compile V) (arg_exps vs)))) s = Some s' /\
+               args s' = args s ++ map Some vs /\ named s' = named s /\ errs s' = errs s.
+  Proof.
+    induction vs as [|v r IH]; intro s.
+    - exists s. cbn. rewrite app_nil_r. repeat split; reflexivity.
+    - destruct r as [|v2 r'].
+      + cbn. eexists. split; [reflexivity|]. cbn. repeat split; reflexivity.
+      + set (s1 := emit (CKw ",") (emit (CParam (S (argIdx s))) (mkSb (out s) (S (argIdx s)) (args s ++ [Some v]) (named s) (errs s)))).
+        destruct (IH s1) as (s' & R & A & N & E). exists s'.
+        split; [|subst s1; cbn in *; rewrite A, <- app_assoc; repeat split; assumption].
+        change (arg_exps (v :: v2 :: r')) with (EBase (EArg v) :: arg_exps (v2 :: r')).
+        cbn [map sep_by]. change (compile (EBase (EArg v))) with (@WArg V v).
+        cbn [map sep_by arg_exps] in R. cbn [run] in *. exact R.
+  Qed.
+
+  (* builder.Args(v1 .. vn): n placeholders and n argument slots carrying v1 .. vn in order - whether or not values repeat *)
+  Theorem args_one_slot_each o sup (vs : list V) r :
+    lookup_h V "Args" exp_ctors [AAnys vs] = Some r ->
+    exists sql, to_sql validI validT o sup (compile r) = ROk sql (map Some vs) [].
+  Proof.
+    assert (C : lookup_h V "Args" exp_ctors [AAnys vs] = Some (EExprs (arg_exps vs))) by reflexivity.
+    intro H. rewrite C in H. injection H as <-.
+    unfold to_sql. cbn [compile]. unfold c_args.
+    destruct (run_arg_list o vs (emit (CKw "(") sb0)) as (s' & R & A & N & E).
+    cbn [run]. unfold kw. cbn [run]. cbn [run] in R. rewrite R. unfold finish. cbn [named emit]. rewrite N. cbn [fill args emit errs].
+    rewrite A, E. cbn. eexists. reflexivity.
+  Qed.
+End ArgsSlots.
